@@ -2,8 +2,10 @@
 // policy events (AddHost, AddHosts, RemoveHost, HostUp, HostDown, SetPartitioner, KeyspaceChanged) interleaved with
 // changes of the environment it reads (keyspace schema readable / unreadable / altered / dropped). After every event
 // the metadata snapshot Pick consults is dumped (model-vs-code) and `replicas(ks, token)` is queried: spec-backed
-// (`prepl`, answered by the Lean driver from the CURRENT environment only) whenever the keyspace is fresh in the sense
-// of the theorem C10_pick_spec, model-vs-code (`xprepl`) otherwise.
+// (`prepl`, answered by the Lean driver from the CURRENT environment only) whenever the keyspace is settled in the sense
+// of the theorem C10_pick_spec - its schema did not change behind the policy's back and it has an entry (ANY keyspace,
+// KF-C10-4 repaired: every ring change recomputes every keyspace with an entry), is the session keyspace or no entry is
+// expected -, model-vs-code (`xprepl`) otherwise.
 package main
 
 import (
@@ -48,10 +50,12 @@ type polEnv struct {
 
 	// the harness's own bookkeeping of the history, used ONLY to classify queries (spec-backed or not)
 	part    string
-	partBad bool         // an unsupported / empty partitioner was set by an event
-	addrs   map[int]bool // connect addresses in the policy's host list
-	fresh   map[int]bool
-	why     map[int]string // why a keyspace is not fresh: "ring" (ring recomputed since its last KeyspaceChanged) / "schema"
+	partBad bool           // an unsupported / empty partitioner was set by an event
+	addrs   map[int]bool   // connect addresses in the policy's host list
+	fresh   map[int]bool   // schema unchanged since the policy last read it (KeyspaceChanged, or a ring change while it had an entry / is the session keyspace)
+	held    map[int]bool   // by the history the policy has to hold an entry: at its last read there was a ring and a usable schema
+	hasRing bool           // a supported partitioner was set: the policy has a token ring from then on
+	why     map[int]string // why a keyspace is not fresh: "schema"
 	// scenario statistics
 	hadEntry     map[int]bool // the keyspace had an entry at some point
 	unreadRingEv int          // ring recomputations while a keyspace that had an entry is unreadable
@@ -94,7 +98,7 @@ func (e *polEnv) read(ks string) (*gocql.KeyspaceMetadata, error) {
 }
 
 func polReset(w []string) string {
-	e := &polEnv{schema: map[int]string{}, addrs: map[int]bool{}, fresh: map[int]bool{}, why: map[int]string{}, hadEntry: map[int]bool{}, part: "e"}
+	e := &polEnv{schema: map[int]string{}, addrs: map[int]bool{}, fresh: map[int]bool{}, held: map[int]bool{}, why: map[int]string{}, hadEntry: map[int]bool{}, part: "e"}
 	fmt.Sscan(w[1], &e.sess)
 	for _, s := range w[2:] {
 		f := strings.Split(s, "/")
@@ -192,21 +196,41 @@ func (e *polEnv) dump() string {
 	return sb.String()
 }
 
-// recomputed: the event rebuilt the ring and the session keyspace's entry (bookkeeping for the classification)
+// readKs: the policy read the keyspace's schema now (updateReplicas): bookkeeping for the classification
+func (e *polEnv) readKs(k int) {
+	e.fresh[k] = true
+	sc := e.schema[k]
+	e.held[k] = e.hasRing && (strings.HasPrefix(sc, "s:") || strings.HasPrefix(sc, "n:"))
+}
+
+// recomputed: the event rebuilt the ring and (updateAllReplicas) the entries of the session keyspace and of every
+// keyspace the policy holds an entry for (bookkeeping for the classification)
 func (e *polEnv) recomputed() {
-	for k := range e.fresh {
-		if k != e.sess {
-			e.why[k] = "ring"
+	var ks []int
+	for k, h := range e.held {
+		if h && k != e.sess {
+			ks = append(ks, k)
 		}
-		delete(e.fresh, k)
 	}
-	e.fresh[e.sess] = true
+	e.readKs(e.sess)
+	for _, k := range ks {
+		e.readKs(k)
+	}
 	for k := 0; k < nKs; k++ {
 		if e.hadEntry[k] && e.schema[k] == "e" {
 			e.unreadRingEv++
 			break
 		}
 	}
+}
+
+// settled: the hypothesis of C10_pick_spec (PlacementPol.settled), from the history alone
+func (e *polEnv) settled(k int) bool {
+	if !e.fresh[k] {
+		return false
+	}
+	sc := e.schema[k]
+	return e.held[k] || k == e.sess || !e.hasRing || !(strings.HasPrefix(sc, "s:") || strings.HasPrefix(sc, "n:"))
 }
 
 func (e *polEnv) uniAt(s string) *polHost {
@@ -291,6 +315,8 @@ func polEvent(w []string) (res string) {
 			e.part = w[2]
 			if w[2] == "k" || w[2] == "e" {
 				e.partBad = true
+			} else {
+				e.hasRing = true
 			}
 			e.recomputed()
 		}
@@ -300,7 +326,7 @@ func polEvent(w []string) (res string) {
 			return "bad-op"
 		}
 		e.pol.KeyspaceChanged(gocql.KeyspaceUpdateEvent{Keyspace: ksName(k), Change: "UPDATED"})
-		e.fresh[k] = true
+		e.readKs(k)
 	default:
 		return "bad-op"
 	}
@@ -322,7 +348,26 @@ func polSchema(w []string) string {
 	return "ok"
 }
 
-// polFresh: the harness's classification state, tied to the ghost field of the Lean model (op pfresh)
+// polSettled: the harness's spec-backed classification of ks0..ks3, tied to the hypothesis of C10_pick_spec as the
+// Lean model evaluates it (op psettled)
+func polSettled() string {
+	e := curPol
+	if e == nil {
+		return "bad-op"
+	}
+	var s []string
+	for k := 0; k < nKs; k++ {
+		if e.settled(k) {
+			s = append(s, fmt.Sprint(k))
+		}
+	}
+	if len(s) == 0 {
+		return "-"
+	}
+	return strings.Join(s, ",")
+}
+
+// polFresh: the harness's bookkeeping of the schema reads, tied to the ghost field of the Lean model (op pfresh)
 func polFresh() string {
 	e := curPol
 	if e == nil {
@@ -361,8 +406,8 @@ func polQuery(w []string) (res string) {
 		return "bad-op"
 	}
 	parts := make([]string, 0, len(w)-2)
-	// the one panic the unchanged code can raise here (KF-C10-4): a replica map computed under another partitioner
-	// is searched with a token of the ring's partitioner and token.Less's type assertion fails
+	// the one panic the code could raise here before the repair of KF-C10-4: a replica map computed under another
+	// partitioner is searched with a token of the ring's partitioner and token.Less's type assertion fails
 	typePanic := func(f func()) (p bool) {
 		defer func() {
 			if r := recover(); r != nil {
@@ -466,6 +511,9 @@ func (g *polGen) queries(all bool) {
 	}
 	ts := strings.Join(tl, " ")
 	g.do("pfresh", "pfresh")
+	if !e.partBad {
+		g.do("psettled", "psettled")
+	}
 	for k := 0; k < nKs; k++ {
 		if !all && r.Intn(3) == 0 {
 			continue
@@ -481,18 +529,18 @@ func (g *polGen) queries(all bool) {
 		switch {
 		case e.partBad:
 			g.do(fmt.Sprintf("xprepl %d %s", k, ts), "xprepl/x-part-unsupported/"+who)
-		case e.fresh[k]:
+		case e.settled(k):
 			sc := e.schema[k]
 			if sc == "" {
 				sc = "e"
 			}
 			g.do(fmt.Sprintf("prepl %d %s", k, ts), "prepl(spec)/"+who+"/"+st+"/schema-"+sc[:1])
 			if r.Intn(3) == 0 {
-				g.do(fmt.Sprintf("xprepl %d %s", k, ts), "xprepl/fresh/"+who)
+				g.do(fmt.Sprintf("xprepl %d %s", k, ts), "xprepl/settled/"+who)
 			}
-		case k != e.sess && e.why[k] == "ring":
-			// KF-C10-4: the entry of a keyspace other than the session keyspace is not recomputed when the ring is
-			g.do(fmt.Sprintf("xprepl %d %s", k, ts), "xprepl/x-otherks-not-recomputed-on-ring-change/"+st)
+		case e.fresh[k]:
+			// its KeyspaceChanged was processed while the policy had no ring: no entry until the next KeyspaceChanged
+			g.do(fmt.Sprintf("xprepl %d %s", k, ts), "xprepl/x-otherks-read-before-ring/"+st)
 		case e.why[k] == "schema":
 			g.do(fmt.Sprintf("xprepl %d %s", k, ts), "xprepl/x-schema-changed-unnotified/"+who+"/"+st)
 		default:
@@ -500,10 +548,10 @@ func (g *polGen) queries(all bool) {
 		}
 		if e.part == "o" && r.Intn(2) == 0 {
 			// the REAL Pick (ordered partitioner: routing key = token): spec-backed under the same condition as prepl
-			if e.fresh[k] && !e.partBad {
-				g.do(fmt.Sprintf("spick %d %s", k, ts), "spick(spec)/"+who)
+			if e.settled(k) && !e.partBad {
+				g.do(fmt.Sprintf("spick %d %s", k, ts), "spick(spec)/"+who+"/"+st)
 			} else {
-				g.do(fmt.Sprintf("ppick %d %s", k, ts), "ppick/not-fresh")
+				g.do(fmt.Sprintf("ppick %d %s", k, ts), "ppick/not-settled")
 			}
 		}
 	}
@@ -693,7 +741,7 @@ func (ru *run) polScenario(long bool) {
 	ru.nPol++
 }
 
-// fixed histories: the seeded family (schema unreadable, then the ring changes) and the input of KF-C10-4
+// fixed histories: the seeded family (schema unreadable, then the ring changes) and the input of KF-C10-4 (repaired)
 func (ru *run) polFixed() {
 	seq := func(ops ...string) {
 		for _, op := range ops {
@@ -713,8 +761,15 @@ func (ru *run) polFixed() {
 		"psch 0 n:1=2,2=1", "pev part m", "pev addmany 0,1", "pev kc 0", "prepl 0 5 15 25 35",
 		"psch 0 e", "pev kc 0", "prepl 0 5 15 25 35", "pev add 2", "prepl 0 5 15 25 35",
 		"pev part r", "prepl 0 5 15 25 35", "psch 0 n:1=1", "pev rem 0", "prepl 0 5 15 25 35")
-	// KF-C10-4: keyspace ks1 is not the session keyspace: its entry survives the ring change
+	// KF-C10-4 (repaired): keyspace ks1 is not the session keyspace: its entry has to follow the ring changes and the
+	// partitioner change; an unreadable schema at a ring change drops it
 	seq("resetpol 0 1/1/1/1/10 2/2/1/1/30 3/3/1/1/20",
 		"psch 1 s:2", "pev part o", "pev add 0", "pev add 1", "pev kc 1", "prepl 1 15 25",
-		"pev add 2", "pev rem 1", "pfresh", "xprepl 1 15 25", "ppick 1 15 25", "pev kc 1", "prepl 1 15 25")
+		"pev add 2", "pev rem 1", "pfresh", "psettled", "prepl 1 15 25", "spick 1 15 25",
+		"pev part m", "prepl 1 15 25", "pev part o", "psch 1 e", "pev add 1", "psettled", "prepl 1 15 25", "spick 1 15 25",
+		"psch 1 s:2", "pev rem 0", "pfresh", "psettled", "xprepl 1 15 25", "pev kc 1", "prepl 1 15 25")
+	// KeyspaceChanged(ks1) before the policy has a ring: no entry, and none after the ring events (model-vs-code)
+	seq("resetpol 0 1/1/1/1/10 2/2/1/1/30",
+		"psch 1 s:2", "pev kc 1", "pev part o", "pev add 0", "pev add 1", "pfresh", "psettled", "xprepl 1 15 25",
+		"pev kc 1", "psettled", "prepl 1 15 25")
 }
